@@ -26,7 +26,7 @@ def selected_by(what, contents):
     """Reference selection: a substance (by equality) or a class of substances."""
     pp = PP()
     if isinstance(what, pp.Substance):
-        return [s for s in contents if s == what]
+        return [s for s in contents if R.ident(s) == R.ident(what)]       # by what identifies a substance, spelt out
     if isinstance(what, int) and not isinstance(what, bool) and what in (R.SOLID, R.LIQUID, R.ENZYME):
         return [s for s in contents if s._type == what]
     return None
@@ -39,17 +39,24 @@ def check_remove(before, what, after, where):
         M.count('REMOVE.unjudged_selector')
         return
     bad = None
-    for s in sel:
-        if s in after.contents and after.contents[s] != 0:
-            bad = ('selected_still_present', s.name, after.contents[s])
+    # the books are keyed by R.ident (never by the library's own equality of substances)
+    sel_ids = {R.ident(s) for s in sel}
+    after_by = {}
+    for s, a in after.contents.items():
+        after_by.setdefault(R.ident(s), []).append(a)
+    before_ids = {R.ident(s) for s in before.contents}
+    for k_ in sel_ids:
+        if any(a != 0 for a in after_by.get(k_, [])):
+            bad = ('selected_still_present', k_[0], after_by[k_])
     for s, a in before.contents.items():
-        if s in sel:
+        k_ = R.ident(s)
+        if k_ in sel_ids:
             continue
-        if s not in after.contents or after.contents[s] != a:
-            bad = ('survivor_changed', s.name, (a, after.contents.get(s)))
-    for s in after.contents:
-        if s not in before.contents:
-            bad = ('substance_appeared', s.name, after.contents[s])
+        if after_by.get(k_) != [a] and a not in after_by.get(k_, []):
+            bad = ('survivor_changed', s.name, (a, after_by.get(k_)))
+    for k_ in after_by:
+        if k_ not in before_ids:
+            bad = ('substance_appeared', k_[0], after_by[k_])
     if after.name != before.name or after.max_volume != before.max_volume:
         bad = ('identity_changed', None, (after.name, after.max_volume))
     if bad:
